@@ -110,17 +110,23 @@ def encoding(ctx, crate, crs, tag):
     if b is None:
         ctx.ob(R, ENC + "on_candidates_available", "exists", False, "", "consumer not found")
     else:
-        cs = q.conds(b, crs)
+        # written against the consumer with the lock helper spliced in, so that it holds whether the helper exists or was inlined
+        vb = view(crate, ENC + "on_candidates_available", [ENC + "add_locked_package_clauses"])
+        vcs = q.conds(vb, crs)
         ok_lock = False
-        for c in cs:
+        for c in vcs:
             if c.kind == "discr" and c.src_place is not None and \
                     any(isinstance(e, dict) and e.get("n") == "locked" for e in c.src_place.get("p", [])):
-                for i, t in b.calls_to(ENC + "add_locked_package_clauses"):
-                    if q.edge_dominates(b, c.bb, c.target("Some"), i):
-                        d1 = b.origin(t["args"][1])
-                        d2, _ = q.origin_thru(b, t["args"][2])
-                        if any(isinstance(e, dict) and e.get("as") == "Some" for e in d1.get("proj", [])) and \
-                                q.mentions_field(d2, "resolvo::Candidates", "candidates"):
+                for i, t in vb.calls_to(WLP + "lock"):
+                    if q.edge_dominates(vb, c.bb, c.target("Some"), i):
+                        lps = [l for l in for_loops(vb, crs) if i in l[1]]
+                        d0, _ = q.origin_thru(vb, t["args"][0], transparent=set())
+                        from_locked = False
+                        if d0["k"] == "call" and d0["t"]["f"]["name"] == "intern_solvable":
+                            d1, _ = q.origin_thru(vb, d0["t"]["args"][1], transparent=set())
+                            from_locked = any(isinstance(e, dict) and e.get("n") == "locked" for e in d1.get("proj", [])) and \
+                                any(isinstance(e, dict) and e.get("as") == "Some" for e in d1.get("proj", []))
+                        if lps and "candidates" in loop_source_fields(vb, lps[0]) and visits_all(vb, lps[0]) and from_locked:
                             ok_lock = True
         ctx.ob(R, b.key, "locked->lock-clauses", ok_lock, b.loc(),
                "a locked package forbids the other candidates of the full candidate list")
@@ -246,7 +252,7 @@ EXPECT_SINKS = {
 def registration(ctx, crate, crs, tag):
     R = "registration" + tag
     sites = q.callers_of(crate, CLAUSES_ALLOC)
-    ctx.floor(R, "Clauses::alloc call sites", len(sites), 7)
+    ctx.floor(R, "Clauses::alloc call sites", len(sites), 5)
     seen_ctors = set()
     for b, i, t in sites:
         ctor, cbb, cterm = wl_constructor_of_alloc(b, t)
@@ -464,7 +470,7 @@ def clause_shape(ctx, crate, crs, tag):
     rq = body_by_key(crate, CLAUSE + "::requires")
     if rq is not None:
         pos = [(i, t) for i, t in rq.calls_to(POS)]
-        ctx.ob(R, rq.key, "positive-watch-on-candidate", len(pos) >= 2 and all(
+        ctx.ob(R, rq.key, "positive-watch-on-candidate", len(pos) >= 1 and all(
             q.origin_thru(rq, t["args"][0], transparent=set())[0]["k"] != "arg" or
             q.origin_thru(rq, t["args"][0], transparent=set())[0]["l"] != 1 for i, t in pos), rq.loc(),
             "positive literals of a Requires clause are candidates, never the parent")
@@ -526,8 +532,18 @@ def _requires_conflict_flag(b, crs):
     n_true = 0
     for i, j, s in b.assigns():
         r = s["r"]
-        if r["k"] == "agg" and r.get("ak") == "tuple" and len(r["ops"]) == 3:
-            flag = r["ops"][2]
+        if r["k"] == "agg" and r.get("ak") == "tuple" and len(r["ops"]) in (2, 3) and not s.get("exp"):
+            # (kind, watches, conflict) or an intermediate (watched candidate, conflict) pair
+            flag = r["ops"][-1]
+            if len(r["ops"]) == 2 and flag.get("k") != "const":
+                continue
+            if flag.get("k") == "const" and flag.get("ty") != "bool":
+                continue
+            if flag.get("k") != "const" and len(r["ops"]) == 3:
+                # the returned flag is a copy of an intermediate pair's flag
+                d = b.origin(flag)
+                if d.get("k") in ("multi", "rvalue") or any(isinstance(e, dict) and "f" in e for e in d.get("proj", [])):
+                    continue
             if flag.get("k") == "const" and flag.get("v") is True:
                 n_true += 1
                 if not any(q.edge_dominates(b, sb, nt, i) for sb, nt, st in find_none):
